@@ -128,7 +128,7 @@ class Target:
             L = il * max(cap, 2)
             if L != int(L):
                 L = float(int(L) + 1)
-                L = il * round(L / il)
+            L = int(L)
             sp = rng.choice((1, 2, 0.5))
             acc = 1 if kind == "belt_acc" else 0
             self.edge = ConveyorBelt(env, "CC", conveyor_length=L, speed=sp, item_length=il, accumulating=acc)
@@ -142,6 +142,14 @@ class Target:
             self.edge.dest_node = Stub("dst")
         self.sh = mon.label(self.store, kind, self.edge)
         self.cap = self.store.capacity
+        self.conv_oracle = None
+        if kind in ("slotbelt", "belt_acc", "belt_nacc"):
+            from ..oracles.conveyor import ConveyorOracle
+            pr = self.params
+            if kind == "slotbelt":
+                self.conv_oracle = ConveyorOracle(mon, self.sh, pr["cap"] * pr["delay"], pr["delay"], pr["cap"], pr["acc"], True)
+            else:
+                self.conv_oracle = ConveyorOracle(mon, self.sh, pr["L"] / pr["speed"], pr["item_len"] / pr["speed"], pr["cap"], pr["acc"], False)
         self.fleet_oracle = None
         if kind == "fleet":
             from ..oracles.fleet import FleetOracle
@@ -420,7 +428,12 @@ def run_case(seed, kind=None, profile=None, mode=None, nops=None):
     # end-of-run checks
     if T.fleet_oracle is not None:
         T.fleet_oracle.finish(env.now)
+    if T.conv_oracle is not None:
+        T.conv_oracle.finish(env.now)
     res = summarize(mon, sh, H, env, exc)
+    if T.conv_oracle is not None:
+        res["nontrivial"]["C12"] = len(T.conv_oracle.items) >= 8
+        res["nontrivial"]["C13"] = bool(getattr(T.conv_oracle, "nontrivial13", False))
     if T.fleet_oracle is not None:
         res["nontrivial"]["C14"] = bool(getattr(T.fleet_oracle, "nontrivial", False))
     res["spec"] = {"engine": "E1", "seed": seed, "kind": kind, "profile": profile, "cap": T.cap, "clients": ncl,
